@@ -82,4 +82,20 @@ theorem lintEvents_split (cfg : Cfg) (norm : String → String)
     rtRun_split, nmRun_split]
   exact perm5 _ _ _ _ _ _ _ _ _ _
 
+/-- the response on a header followed by methods, by induction with `lintEvents_split` -/
+theorem lintAll_cons (cfg : Cfg) (norm : String → String) (h1 : cfg.uv.resets = true) (h2 : cfg.up.resets = true)
+    (h3 : cfg.ihResets = true) (pre : List Ev) (ms : List Method) :
+    (lintEvents cfg norm (pre ++ ms.flatMap Method.evs)).Perm
+      (lintEvents cfg norm pre ++ ms.flatMap (lintMethod cfg norm)) := by
+  induction ms generalizing pre with
+  | nil => simp
+  | cons m rest ih =>
+    simp only [List.flatMap_cons, Method.evs, List.cons_append]
+    refine (lintEvents_split cfg norm h1 h2 h3 pre m.hhead _).trans ?_
+    refine List.Perm.append_left _ ?_
+    have := ih (m.head :: m.body)
+    simp only [List.cons_append] at this
+    refine this.trans ?_
+    simp [lintMethod, Method.evs]
+
 end Gold.Lint
